@@ -11,7 +11,7 @@ import subprocess
 from harness import common, gpgutil, keydata
 from harness.common import cps, uncps
 
-BRIDGE = ('Gemato.Bridge.Pgp', 'Gemato.Bridge.SrcPgp')
+BRIDGE = ('Gemato.Bridge.Pgp', 'Gemato.Bridge.SrcPgp', 'Gemato.Bridge.SrcText')
 PROPS = ['Gemato.Props.C05']
 
 FPR = gpgutil.KEY_FPR
@@ -433,7 +433,8 @@ def run(ctx):
     ctx.rule = ('status sequences: all sequences up to a length bound over gpg\'s status vocabulary x exit {0,1,2} through a fake '
                 'Popen (the real _spawn_gpg logic runs); real gpg 2.2.40: key states (valid, expired, revoked, unknown signer, no key, '
                 'owner-trust none/2..6, subkey with/without binding), single-byte mutations of the signed cleartext, user GNUPGHOME '
-                'contents while an isolated environment is in use, CLI -s/-P/-K combinations. non-trivial = every distinct scenario')
+                'contents while an isolated environment is in use, CLI -s/-P/-K combinations; one ManifestFile object loaded several times '
+                '(a rejected signature after an accepted one). non-trivial = every distinct scenario')
     ctx.assumptions = ['gpg: that it exits non-zero / omits GOODSIG on a changed signed byte, and maps owner-trust to validity under '
                        'trust-model direct, is exercised with the installed gpg, not proved']
     drv = common.Driver()
@@ -453,6 +454,10 @@ def run(ctx):
                     status_case(ctx, drv, ex, combo, 'exhaustive')
                     n += 1
         ctx.tables[f'status sequences (len<={maxlen}, {len(names)} line kinds, exit 0/1/2)'] = {'size': n, 'exhaustive': True, 'ok': True}
+        # a rejected signature must not leave the object "signed" from an earlier, accepted load (one ManifestFile object reused)
+        from harness.props import c04
+        for i in range(300 if ctx.tier == 'quick' else 5000):
+            c04.reuse_case(ctx)
         for i in range(3000 if ctx.tier == 'quick' else 100000):
             k = ctx.rng.randint(maxlen + 1, 9)
             base = ['NEWSIG', 'KEY_CONSIDERED', 'GOODSIG', 'VALIDSIG', ctx.rng.choice(names[9:14])]
